@@ -92,6 +92,18 @@ def run(ctx):
         ctx.guarded("R-C12-levels", check_levels, ctx, ctx.progs[crate], label, body)
     for label, body, crate in copies["valid_filter"]:
         ctx.guarded("R-C12-filter", check_filter_levels, ctx, ctx.progs[crate], label, body)
+    ctx.guarded("R-C12-siblings", cached_matcher_agrees, ctx)
+
+
+def cached_matcher_agrees(ctx):
+    """The broker answers 'which filters match this topic' from a topic -> filters cache (DataLog::matches); that
+    cached matcher agrees with protocol::matches only if a new filter is added to every cached topic that matches()
+    says it matches - decided by matches() alone. Shared with R-C01-cache (recomputed on every run)."""
+    from . import c01
+    from .common import Relabel
+    view = Relabel(ctx, "R-C12-siblings", lambda fn, inst: True)
+    c01.cache(view, ctx.progs["rumqttd"])
+    ctx.floor("R-C12-siblings", "verdicts about the cached matcher", view.kept, 2)
 
 
 def check_dollar(ctx, label, body):
